@@ -172,7 +172,9 @@ def main(ctx):
             else 1
         use = [a for a in use for _ in range(reps)]
         for ai, (aname, kalg, sig_alg) in enumerate(use):
-            blob, calg, how, put = D.build_row_cert(cls, kalg, sig_alg, rnd)
+            blob, calg, how, put = D.build_row_cert(
+                cls, kalg, sig_alg, rnd,
+                principals=only.rp.get('principals') if only.rp else None)
             cert, exc = D.import_cert_blob(blob, calg)
             note_exc('cert-import', exc)
             if cert is not None:
@@ -204,7 +206,8 @@ def main(ctx):
                         {'module': 'SigCert', 'table': 'cert', 'row': row,
                          'expected_reject_at': stage},
                         f'certificate accepted although CertRule rejects it '
-                        f'(stage {stage}): {row} ca_alg={aname} now={now} '
+                        f'(stage {stage}): {row} principals={put["principals"]!r} '
+                        f'ca_alg={aname} now={now} '
                         f'casig_how={how}',
                         replay={'kind': 'cert', 'row': row, 'alg': aname,
                                 'blob': blob.hex(), 'now': now,
